@@ -820,7 +820,9 @@ def observe(w, callers, window, deadline, extra_threads=()):
         else:
             states[soft] = [1, last]
         span = now - run_start
-        if drained and span >= window and run_samples >= 8:
+        # undelivered bytes do not break quiescence: the hard key already demands that not a byte was
+        # sent or delivered during the whole run, so whoever should read them is one of the parked threads
+        if span >= window and run_samples >= 8:
             parked = len(states) == 1
             recurring = (not parked and run_samples >= 16 and len(states) <= 6
                          and all(n >= 2 for n, _ in states.values()))
